@@ -1107,3 +1107,76 @@ def run_I9(chk, rule="I9"):
                     f"`{me}.trans`: for a lazily transposed tensor the answer refers to the legs in storage order, while __getitem__, get_legs, "
                     f"get_shape and to_numpy use the order the user sees -- e.g. `t in a` is False for a block that `a[t]` returns, "
                     f"`for t in a.get_blocks_charge(): a[t]` raises")
+
+
+
+# ------------------------------------------------------------------ I10: no field read before `X = X.conj()` is used after it
+I10_VARIANT = {
+    "conj": {"n", "s", "s_n", "hfs", "struct", "get_legs", "get_signature", "get_tensor_charge"},
+    "conj_blocks": set(),
+    "flip_signature": {"n", "s", "s_n", "hfs", "struct", "get_legs", "get_signature", "get_tensor_charge"},
+    # consume_transpose() changes the native layout only; the lazy transpose() changes the logical order only
+    "consume_transpose": {"struct", "slices", "hfs", "trans", "_trans", "s_n", "_data", "data"},
+    "transpose": {"trans", "_trans", "s", "mfs", "get_shape", "get_legs", "get_signature", "ndim"} - {"ndim"},
+}
+# fields of struct that conj() leaves alone (t, D, size, diag): reading them across the rebinding is harmless
+I10_STRUCT_KEEP = {"conj": {"t", "D", "size", "diag"}, "flip_signature": {"D", "size", "diag"}}
+
+
+def run_I10(chk, prefixes, rule="I10", floor=2):
+    """A tensor name that is rebound to its own transform (`if conj[1]: b = b.conj()`) denotes two different tensors in one function.  A
+    value computed from a field the transform changes (total charge, signature, fusion records for conj; order-dependent fields for a
+    transposition) before the rebinding and used after it belongs to the *old* tensor: e.g. the charge of the contraction computed from
+    b.struct.n in front of `b = b.conj()` has the wrong sign for every operand with a non-zero charge."""
+    from ..core.cfg import CFG
+    prog = chk.prog
+    chk.rule(rule, "no value read from a field that `X = X.conj()` (or a transposition) changes is carried across that rebinding", floor=floor)
+    for f in prog.all_funcs():
+        if not f.module.name.startswith(tuple(prefixes)) or "torch" in f.module.name:
+            continue
+        fn = f.node
+        rebinds = []
+        for n in A.walk_local(fn, include_self=False):
+            if isinstance(n, ast.Assign) and len(n.targets) == 1 and isinstance(n.targets[0], ast.Name) and isinstance(n.value, ast.Call) \
+                    and isinstance(n.value.func, ast.Attribute) and isinstance(n.value.func.value, ast.Name) \
+                    and n.value.func.value.id == n.targets[0].id and n.value.func.attr in I10_VARIANT:
+                rebinds.append((n, n.targets[0].id, n.value.func.attr))
+        if not rebinds:
+            continue
+        cfg = CFG(fn)
+        b = A.local_bindings(fn)
+        for S, X, m in rebinds:
+            if S not in cfg.node_of:
+                continue
+            variant = I10_VARIANT[m]
+            keep = I10_STRUCT_KEEP.get(m, set())
+            stale = []
+            for Y, ds in b.items():
+                if Y == X:
+                    continue
+                for D, v, k in ds:
+                    if k != "assign" or v is None or D not in cfg.node_of or D is S:
+                        continue
+                    reads = []
+                    for a_ in ast.walk(v):
+                        if isinstance(a_, ast.Attribute) and isinstance(a_.value, ast.Name) and a_.value.id == X and a_.attr in variant:
+                            reads.append(a_)
+                    # X.struct.<kept field> is not changed by the transform
+                    par = A.enclosing_map(v)
+                    reads = [r for r in reads if not (r.attr == "struct" and isinstance(par.get(r), ast.Attribute) and par[r].attr in keep)]
+                    if not reads or not cfg.path_exists(D, S):
+                        continue
+                    others = [d2 for d2, _, _ in ds if d2 is not D and d2 in cfg.node_of]
+                    uses = [u for u in ast.walk(fn) if isinstance(u, ast.Name) and u.id == Y and isinstance(u.ctx, ast.Load)]
+                    par_f = A.enclosing_map(fn)
+                    for u in uses:
+                        ust = A.stmt_of(u, par_f)
+                        if ust in cfg.node_of and ust is not D and cfg.path_exists(S, ust, avoiding=others + [D]):
+                            stale.append((D, Y, reads[0], ust))
+                            break
+            for D, Y, r, ust in stale:
+                chk.bad(rule, (f, D), A.short(D, 70), f"{f.short}(): `{A.short(D, 70)}` reads `{A.text(r)}` of `{X}` before `{A.short(S, 30)}` and `{Y}` is used after it "
+                        f"(`{A.short(ust, 50)}`): the value belongs to the tensor before {m}(), which changes that field -- e.g. the charge test of vdot sees the "
+                        f"un-conjugated charge of the second operand and returns 0 for every pair of charged operands")
+            if not stale:
+                chk.ok(rule, (f, S), f"{f.short}: nothing read from `{X}` before `{A.short(S, 30)}` is used after it", sample=False)
